@@ -255,7 +255,7 @@ class TraceOutcome:
 
 
 def validate_traces(module, trace_files, parallel=8, timeout=3600, branch_pos=3, cfg=None, xmx="3g",
-                    extra_env=None):
+                    extra_env=None, sparse=False):
     """Validate each trace file against spec/<module>.tla (one TLC process per file).
     The trace specs print one <<"VERDICT", l, "ok"|"MISMATCH", ...>> per event and a final <<"DONE", n, bad>>.
     A trace whose DONE line is missing or whose count differs is a tool error."""
@@ -276,7 +276,8 @@ def validate_traces(module, trace_files, parallel=8, timeout=3600, branch_pos=3,
         events = read_ndjson(t)
         verdicts = printed_tuples(r.stdout, {"VERDICT"})
         done = printed_tuples(r.stdout, {"DONE"})
-        if not done or done[-1][1] != len(events) or len(verdicts) < len(events):
+        history = printed_tuples(r.stdout, {"HISTORY"})
+        if not done or done[-1][1] != len(events) or (not sparse and len(verdicts) < len(events)):
             log(r.stdout[-3000:])
             raise ToolError("trace %s: TLC consumed %d of %d events (spec stuck or crashed)" %
                             (t, len(verdicts), len(events)))
@@ -298,9 +299,18 @@ def validate_traces(module, trace_files, parallel=8, timeout=3600, branch_pos=3,
                 out.branches[b] = out.branches.get(b, 0) + 1
             if v[2] != "ok":
                 out.mismatches.append((t, idx, events[idx - 1], v))
+        hseen = set()
+        for h in history:
+            if h[1] in hseen:
+                continue
+            hseen.add(h[1])
+            b = "history:" + str(h[3])
+            out.branches[b] = out.branches.get(b, 0) + 1
+            if h[2] != "ok":
+                out.mismatches.append((t, 0, {"ev": "history", "name": h[3], "detail": h[4], "trace_file": t}, h))
         if len(out.samples) < 3 and events:
             out.samples.append({"trace": os.path.basename(t), "event": shrink(events[0]),
-                                "tlc_verdict": verdicts[0]})
+                                "tlc_verdict": verdicts[0] if verdicts else (history[0] if history else None)})
     log("[tlc] %s: %d traces, %d events, %d mismatches, %.1fs" %
         (module, out.traces, out.events, len(out.mismatches), out.wall))
     return out
